@@ -280,8 +280,9 @@ def pandas_vs_sqlite(case):
     if rb is None:
         return "the SQL path raises (%s) where Pandas returns a table" % eb
     ordered = X.order_is_total(case.script, ra)
-    if not pipes.frames_equiv(ra, rb, check_col_order=X.defines_column_order(case.script), check_row_order=ordered):
-        return "the SQL result differs from the Pandas result"
+    reason = pipes.frames_equiv(ra, rb, check_col_order=X.defines_column_order(case.script), check_row_order=ordered)
+    if reason is not None:
+        return "the SQL result differs from the Pandas result: " + reason
     return None
 
 
